@@ -99,14 +99,14 @@ def run(ctx):
     # ------------------------------------------------------------------ 1. the design and its monitor, model checked
     abs2 = Tla("AbstractStreams({3, 4, 5, 6}, 3, 5)")                 # 2 byte header: <= 3 frames of 3..6 bytes, 6 is oversize
     abs8 = Tla("AbstractStreams({9, 10, 12}, %d, 10)" % (2 if q else 3))  # 8 byte header: frames of 9..12 bytes, 12 is oversize
-    ctx.model_check("dec_hdr2", "MCFraming", dec_consts(abs2, "all", HdrLen=2, Peek=3), ["C11", "Progress"], view="MView")
-    ctx.model_check("dec_hdr8", "MCFraming", dec_consts(abs8, "all"), ["C11", "Progress"], view="MView")
+    ctx.model_check("dec_hdr2", "MCFraming", dec_consts(abs2, "all", HdrLen=2, Peek=3), ["C11", "Progress", "RunEquiv"], view="MView")
+    ctx.model_check("dec_hdr8", "MCFraming", dec_consts(abs8, "all"), ["C11", "Progress", "RunEquiv"], view="MView")
     ctx.model_check("dev_peek7", "MCFraming", dec_consts(Tla("AbstractStreams({9, 12}, 2, 0)"), "all", Peek=7), ["C11"],
                     view="MView", expect_violation="C11")
     ctx.model_check("dev_slack", "MCFraming", dec_consts(Tla("AbstractStreams({9, 12}, 2, 0)"), "all", Slack=1), ["C11"],
                     view="MView", expect_violation="C11")
     scripts = Tla("AbstractScripts(1..5, 3, 3, %d)" % (7 if q else 10))  # every partial write sequence of <= 10 secured bytes
-    ctx.model_check("sendbuf", "MCFraming", sb_consts(scripts, "all", max_idle=1 if q else 2), ["C11", "Progress"], view="MView",
+    ctx.model_check("sendbuf", "MCFraming", sb_consts(scripts, "all", max_idle=1 if q else 2), ["C11", "Progress", "RunEquiv"], view="MView",
                     timeout=1500)
     ctx.model_check("dev_losetail", "MCFraming", sb_consts(Tla("AbstractScripts(1..4, 2, 2, 6)"), "all", LoseTail=True), ["C11"],
                     view="MView", expect_violation="C11")
@@ -119,19 +119,21 @@ def run(ctx):
     gens = []
 
     def gen_dec(name, streams, cuts, max_run=1, simulate=None, limit=None):
-        h, r = ctx.gen(name, "GenFraming", dec_consts(tla_set(streams), cuts, max_run), simulate=simulate, timeout=1500)
+        h, r = ctx.gen(name, "GenFraming", dec_consts(tla_set(streams), cuts, max_run), simulate=simulate, timeout=1500,
+                       spec="GSpecSim" if simulate else "GSpec")
         cs = [dec_case(x) for x in h]
         gens.append((name, take(cs, limit, ctx.seed) if limit else cs))
 
     # exhaustive: every segmentation of the smallest frame, and every combination of cuts next to header ends and frame ends
-    gen_dec("all_tiny12", [stream(cat, ["tiny12"], M)], "all")
-    pairs = [["hel", "ack"], ["err0", "msg"], ["tiny12", "tiny13"], ["opn", "clo"], ["abort", "err"]]
+    gen_dec("all_tiny12", [stream(cat, ["tiny12"], M)], "all", limit=1000 if q else None)
+    pairs = [["tiny12", "tiny13"]] if q else [["hel", "ack"], ["err0", "msg"], ["tiny12", "tiny13"], ["opn", "clo"], ["abort", "err"]]
     near = [stream(cat, p, M) for p in pairs] + [
         stream(cat, ["ack"], 28),                                       # size = maximum: accepted
         stream(cat, ["tiny13"], M, big=("bigmsg", M + 1, 16)),          # one byte above the maximum, cut short
-        stream(cat, ["err0"], 64, big=("bighel", 65, 65)),              # oversize frame present in full
-        stream(cat, ["msg"], 100, big=("bigerr", 70000, 9))]
-    gen_dec("near_pairs", near, "near")
+        stream(cat, ["err0"], 64, big=("bighel", 65, 65))]              # oversize frame present in full
+    if not q:
+        near.append(stream(cat, ["msg"], 100, big=("bigerr", 70000, 9)))
+    gen_dec("near_pairs", near, "near", limit=2500 if q else None)
     if not q:
         gen_dec("near_triples", [stream(cat, ["hel", "ack", "msg"], M), stream(cat, ["tiny12", "err0", "tiny13"], M)], "near",
                 limit=60000)
@@ -139,7 +141,7 @@ def run(ctx):
     long1 = stream(cat, ["hel", "ack", "opn", "msg", "w:100#1", "err", "clo"], M)
     long2 = stream(cat, ["hel0", "opn"] + w3 + ["msg", "w:9000#1", "w:9000#2", "abort", "err0"], M)
     long3 = stream(cat, ["msg"] + w3, M, big=("bigmsg", 1 << 30, 40))
-    gen_dec("random", [long1, long2, long3], "sample", max_run=64, simulate="num=%d" % (150 if q else 3000))
+    gen_dec("random", [long1, long2, long3], "sample", max_run=64, simulate="num=%d" % (100 if q else 1500))
     # the all-single-bytes schedule
     gen_dec("single_bytes", [long1, long2, long3] if not q else [long1, long3], "ones", max_run=100000)
 
@@ -149,14 +151,15 @@ def run(ctx):
     sgens = []
 
     def gen_sb(name, scr, cuts, max_run=1, max_idle=1, simulate=None, limit=None):
-        h, r = ctx.gen(name, "GenFraming", sb_consts(tla_set(scr), cuts, max_run, max_idle), simulate=simulate, timeout=1500)
+        h, r = ctx.gen(name, "GenFraming", sb_consts(tla_set(scr), cuts, max_run, max_idle), simulate=simulate, timeout=1500,
+                       spec="GSpecSim" if simulate else "GSpec")
         cs = [sb_case(x, payload_of) for x in h]
         sgens.append((name, take(cs, limit, ctx.seed) if limit else cs))
 
-    gen_sb("sb_near_one", [[m1], [m2]], "near", max_idle=1)
-    gen_sb("sb_near", [[m3], [m1, m2]], "near", max_idle=0, limit=3000 if q else 40000)
+    gen_sb("sb_near_one", [[m2]] if q else [[m1], [m2]], "near", max_idle=1, limit=1500 if q else None)
+    gen_sb("sb_near", [[m1, m1]] if q else [[m3], [m1, m2], [m2, m2]], "near", max_idle=0, limit=1500 if q else 40000)
     gen_sb("sb_random", [[m1, m3, m2], [m2, m2, m1], [m3, m3]], "sample", max_run=64, max_idle=4,
-           simulate="num=%d" % (150 if q else 3000))
+           simulate="num=%d" % (100 if q else 1500))
     gen_sb("sb_single_bytes", [[m2, m1]] if q else [[m3, m1, m2]], "ones", max_run=100000, max_idle=0)
 
     # ------------------------------------------------------------------ 3. replay on the real code, 4. judge
